@@ -288,6 +288,7 @@ def restrict(p, fields):
 def roundtrip_histories(hid0, rng, tmpdir, thorough):
     """data-frame / CSV round trips with matching options, VCF import"""
     import pandas
+    from ..proj import val
     out = []
     hid = hid0
     # ---- breeding values: scaled values in the frame + the object's location/scale handed back
@@ -387,9 +388,34 @@ def roundtrip_histories(hid0, rng, tmpdir, thorough):
                 return proj(cls.from_csv(fn, **kw_from))
             ev.append(same("from_csv(to_csv(cM), cM)", proj(o), csv_rt))
             ev.append(same("copy.deepcopy", proj(o), lambda: proj(copy.deepcopy(o))))
+            # copies must BEHAVE like the source too: interpolation at positions between / outside the markers and on an
+            # absent chromosome, also when the source's spline is older than its marker arrays (markers removed in place)
+            pc = np.array([r[0] for r in rows] + [rows[0][0], rows[-1][0], 97], dtype="int64")
+            pp = np.array([r[1] + 3 for r in rows] + [1, 5000, 50], dtype="int64")
+
+            def behave(m):
+                q = proj(m)
+                with np.errstate(all="ignore"):
+                    try:
+                        q["interp_genpos(probe)"] = val(np.asarray(m.interp_genpos(pc, pp), dtype=float))
+                    except Exception as ex:
+                        q["interp_genpos(probe)"] = val("raises %s" % type(ex).__name__)
+                q["has_spline"] = val(bool(m.has_spline()))
+                return q
+            for stage in ("fresh", "after-in-place-remove"):
+                src = copy.deepcopy(o)
+                if stage != "fresh":
+                    if len(rows) < 3:
+                        continue
+                    try:
+                        src.remove(np.array(sorted(rng.sample(range(len(rows)), rng.randrange(1, len(rows) - 1)))))
+                    except Exception:
+                        continue
+                for what, fn2 in (("copy.copy", lambda: copy.copy(src)), ("copy.deepcopy", lambda: copy.deepcopy(src)),
+                                  (".copy()", lambda: src.copy()), (".deepcopy()", lambda: src.deepcopy())):
+                    ev.append(same("%s behaves like its source (%s)" % (what, stage), behave(src), lambda: behave(fn2())))
             out.append({"id": hid, "cls": clsname, "ev": ev})
     # ---- VCF import: phased diploid calls
-    from ..proj import val
     for clsname in ("DensePhasedGenotypeMatrix", "DenseGenotypeMatrix"):
         cls = imp("pybrops.popgen.gmat." + clsname, clsname)
         for rep in range(4 if thorough else 2):
